@@ -15,9 +15,19 @@ use core::{
     cell::UnsafeCell,
     ops::{Deref, DerefMut, Drop},
 };
+#[cfg(not(metrique_verif_loom))]
 use std::{
     fmt::Debug,
     sync::{Arc, Mutex, Weak},
+};
+// verification builds only: reference counts and the guard mutex become scheduler-visible
+#[cfg(metrique_verif_loom)]
+use {
+    metrique_writer_core::__verif::{
+        sync::Mutex,
+        varc::{Arc, Weak},
+    },
+    std::fmt::Debug,
 };
 /// [`Parent`] owner
 ///
